@@ -32,16 +32,8 @@ theorem no_internal_error (fe : FrontEnd) (evs : List Ev) : (run fe evs).errs = 
 /-- **complete_at_most_once.** Once an Interest has its completion record, no later event of any kind changes
     it: same outcome, same time, for ever. -/
 theorem complete_at_most_once (fe : FrontEnd) (evs evs' : List Ev) (i : Nat) (o : Outcome) (t : Nat)
-    (h : (run fe evs).sts[i]? = some (.done o t)) : (run fe (evs ++ evs')).sts[i]? = some (.done o t) := by
-  have hlt : i < (run fe evs).ints.length := by
-    rw [← (inv_run fe evs).len]; exact (List.getElem?_eq_some_iff.mp h).1
-  have hi : (run fe evs).ints[i]? = some (run fe evs).ints[i] := by simp [hlt]
-  rw [run_append, trace_from fe evs' (inv_run fe evs) hi h]
-  congr 1
-  generalize (run fe evs).clock = c
-  induction evs' generalizing c with
-  | nil => rfl
-  | cons ev rest ih => simp only [reqTrace, specReact_done]; exact ih _
+    (h : (run fe evs).sts[i]? = some (.done o t)) : (run fe (evs ++ evs')).sts[i]? = some (.done o t) :=
+  done_stable fe evs evs' i o t h
 
 /-- **nothing_remains.** A completed Interest has no entry in any node linked in the trie. -/
 theorem nothing_remains (fe : FrontEnd) (evs : List Ev) (i : Nat) (o : Outcome) (t : Nat)
